@@ -193,8 +193,17 @@ def main(argv=None):
         broken.append({'kind': 'harness-import-failed', 'message': traceback.format_exc()[-1500:]})
         return finish(pid, tier, args.seed, t0, None, broken, [], {}, None)
 
-    # 1. facts
+    # 1. facts (also of the properties whose models this one imports: DEPENDS = ['C04', ...])
     facts_summary = {}
+    for dep in getattr(prop, 'DEPENDS', ()):
+        try:
+            dprop = importlib.import_module('harness.%s.prop' % dep.lower())
+            dfr = dprop.facts(build.SRC)
+            build.write_if_changed(os.path.join(build.COQ, 'Gen', 'Facts_%s.v' % dep), dfr['coq'])
+            for pr in dfr.get('problems', []):
+                broken.append({'kind': 'facts(%s)' % dep, 'message': pr})
+        except Exception:
+            broken.append({'kind': 'facts-extractor-failed(%s)' % dep, 'message': traceback.format_exc()[-1500:]})
     try:
         fr = prop.facts(build.SRC)
         build.write_if_changed(os.path.join(build.COQ, 'Gen', 'Facts_%s.v' % pid), fr['coq'])
